@@ -46,6 +46,9 @@ def scenario(ctx, seed):
     g = gen.Gen(random.Random(rng.randint(0, 2 ** 60)), size=rng.randint(3, 8),
                 feat=dict(deps=0.5, rsp=0.2, multi=0.3, restat=0.25, phony=0.2, vals=0.2, generator=0.05, pools=0.2, dyndep=0.0))
     sc = g.scenario("C19-%d" % seed)
+    if rng.random() < 0.35:
+        sc["regen_manifest"] = True
+        sc["sources"]["build.ninja.in"] = "# what the manifest is generated from\n"
     t = e2e.Tree(sc)
     rep = {"seed": seed}
     try:
@@ -70,6 +73,15 @@ def scenario(ctx, seed):
             t.install(sc, extra={victim["id"]: ["--exit", "3"]})
             t.run(["-j2", "-k", "0"])
             t.install(sc)
+        stale_manifest = False
+        if sc.get("regen_manifest") and rng.random() < 0.7:
+            # the manifest is out of date when the tools run: they must still not run its generator
+            sc["sources"]["build.ninja.in"] += "# changed %d\n" % rng.randint(0, 999999)
+            t.write("build.ninja.in", sc["sources"]["build.ninja.in"])
+            stale_manifest = True
+            ctx.count("scenarios_with_stale_self_regenerating_manifest")
+        if sc.get("regen_manifest"):        # (an edit of a random source above may have hit build.ninja.in too)
+            stale_manifest = os.stat(t.path("build.ninja.in")).st_mtime_ns > os.stat(t.path("build.ninja")).st_mtime_ns
         t.events(clear=True)
         pristine = util.scratch("ne2e-pristine-")
         try:
@@ -170,7 +182,9 @@ def scenario(ctx, seed):
             finally:
                 p2.close()
             # ---- -n told the truth?
-            if dryrun_ids is not None and dryrun_ids[2] == 0 and rc1 == 0:
+            # (with an out-of-date self-regenerating manifest -n stops after listing the generator command - ninja.cc says
+            # so - and predicts nothing about the build that follows: not judged)
+            if dryrun_ids is not None and dryrun_ids[2] == 0 and rc1 == 0 and not stale_manifest:
                 predicted = dryrun_ids[0]
                 ctx.count("dry_run_predictions_checked")
                 restat_any = any(s["restat"] for s in sc["stmts"])
